@@ -407,6 +407,139 @@ def skeletons(text):
     return out
 
 
+# ------------------------------------------------------------------------------------------------------
+# exception paths of the insertions: where is the new node deleted when a user functor throws?
+# ------------------------------------------------------------------------------------------------------
+SL_HEADER = "include/oneapi/tbb/detail/_concurrent_skip_list.h"
+SL_SIG_INSERT = r"std::pair<iterator, bool> internal_insert\(\s*Args&&\.\.\. (\w+)\s*\)"
+SL_SIG_INSERT_NODE = r"std::pair<iterator, bool> internal_insert_node\(\s*node_ptr (\w+)\s*\)"
+# calls that cannot run user code (everything else that is called after the link is reported as a throw site)
+NOTHROW_CALLS = {"load", "store", "compare_exchange_strong", "fetch_add", "set_next", "atomic_next", "next", "height", "static_cast",
+                 "iterator", "pair", "adjust_table_size", "internal_insert_return_type", "if", "for", "while", "return", "size_t",
+                 "size_type", "get_key", "set_index_number", "index_number", "dismiss", "make_raii_guard", "void"}
+
+
+def calls_in(text):
+    return [m.group(1) for m in re.finditer(r"([A-Za-z_]\w*)\s*(?:<[^<>()]*>)?\s*\(", text)]
+
+
+def _handlers(body, node, upto):
+    """exception handlers that are active at offset `upto` of `body` and delete / destroy `node`:
+    -> list of (kind, offset of the dismiss() or None)"""
+    out = []
+    dele = re.compile(r"\b(delete_value_node|delete_node|destroy_node)\(\s*%s\s*\)" % re.escape(node))
+    for g in re.finditer(r"\b(?:auto|raii_guard<[^;=]*>)\s+(\w+)\s*=\s*make_raii_guard\s*\(", body):
+        if g.start() > upto:
+            continue
+        e = match_brace(body, g.end() - 1, "(", ")")
+        if not dele.search(body[g.end():e]):
+            continue
+        ds = [d.start() for d in re.finditer(r"\b%s\s*\.\s*dismiss\s*\(" % g.group(1), body)]
+        out.append(("raii_guard", ds or None))
+    for t in re.finditer(r"\btry\s*\{", body):
+        e = match_brace(body, t.end() - 1)
+        if not (t.start() < upto < e):
+            continue
+        c = re.match(r"\s*catch\s*\([^)]*\)\s*\{", body[e:])
+        if c:
+            ce = match_brace(body, e + c.end() - 1)
+            if dele.search(body[e + c.end():ce]):
+                out.append(("catch", None))
+    for t in re.finditer(r"\btry_call\s*\(", body):
+        e = match_brace(body, t.end() - 1, "(", ")")
+        if not (t.start() < upto < e):
+            continue
+        c = re.match(r"\s*\.\s*on_exception\s*\(", body[e:])
+        if c:
+            ce = match_brace(body, e + c.end() - 1, "(", ")")
+            if dele.search(body[e + c.end():ce]):
+                out.append(("on_exception", None))
+    return out
+
+
+def throw_policy(repo):
+    """-> (dict of Lean Bool/List definitions, [(what, ok, detail)], info)"""
+    obl, info = [], {}
+    # ---- skip list ----
+    unl = lnk = True          # pessimistic defaults when the shape is not understood
+    sites_sl = ["?"]
+    try:
+        text = strip_comments(open(repo + "/" + SL_HEADER).read())
+        m, body = func(text, SL_SIG_INSERT)
+        mm = re.search(r"node_ptr (\w+) = create_value_node\(", body)
+        call = mm and re.search(r"internal_insert_node\(\s*%s\s*\)" % mm.group(1), body)
+        if not call:
+            raise CExprError("internal_insert: `node_ptr n = create_value_node(..)` / `internal_insert_node(n)` not found")
+        node = mm.group(1)
+        outer = [h for h in _handlers(body, node, call.start()) if h[1] is None or min(h[1]) > call.start()]
+        # the delete on the `equivalent key` path must still be there (else failed unique inserts leak; not a safety matter)
+        info["sl_internal_insert"] = skeleton(body)
+        m2, nbody = func(text, SL_SIG_INSERT_NODE)
+        nnode = m2.group(1)
+        cas0 = re.search(r"atomic_next\(\s*0\s*\)\s*\.\s*compare_exchange_strong\(", nbody)
+        if not cas0:
+            raise CExprError("internal_insert_node: the level-0 CAS `atomic_next(0).compare_exchange_strong` not found")
+        before, after = nbody[:cas0.start()], nbody[cas0.end():]
+        sites_before = [c for c in calls_in(before) if c not in NOTHROW_CALLS]
+        sites_sl = sorted(set(c for c in calls_in(after) if c not in NOTHROW_CALLS))
+        first_site_after = min([after.find(c + "(") for c in sites_sl if after.find(c + "(") >= 0] or [len(after)]) + cas0.end()
+        inner = _handlers(nbody, nnode, len(nbody))
+        if re.search(r"\b(delete_value_node|delete_node)\(", nbody) and not inner:
+            raise CExprError("internal_insert_node deletes a node outside an exception handler")
+        unl = bool(outer) or any(True for h in inner)
+        # a guard inside internal_insert_node is harmless behind the link only if it is dismissed unconditionally (same brace
+        # depth as the CAS statement) between the level-0 CAS and the first call that can run user code
+        depth = lambda pos: nbody[:pos].count("{") - nbody[:pos].count("}")
+        d0 = depth(cas0.start())
+        dismissed = lambda h: h[1] is not None and any(cas0.end() < d < first_site_after and depth(d) == d0 for d in h[1])
+        lnk = bool(outer) or any(not dismissed(h) for h in inner)
+        info["sl_handlers"] = {"around internal_insert_node": [h[0] for h in outer], "inside internal_insert_node": [h[0] for h in inner],
+                               "user-code calls before the level-0 CAS": sorted(set(sites_before)), "after it": sites_sl}
+        obl.append(("shape of concurrent_skip_list::internal_insert / internal_insert_node (exception handlers, level-0 CAS, throw sites)", True, ""))
+    except (CExprError, OSError, ValueError) as e:
+        obl.append(("shape of concurrent_skip_list::internal_insert / internal_insert_node (exception handlers, level-0 CAS, throw sites)", False,
+                    "not understood (%s); the pessimistic policy `the node is deleted on every exception` is generated" % str(e)[:200]))
+    # ---- unordered ----
+    uo_unl = True
+    sites_uo = ["?"]
+    try:
+        text = strip_comments(open(repo + "/" + HEADER).read())
+        m = re.search(r"internal_insert_return_type internal_insert\(\s*ValueType&& (\w+),\s*CreateInsertNode (\w+)\s*\)\s*\{", text)
+        if not m:
+            raise CExprError("internal_insert not found")
+        e = match_brace(text, m.end() - 1)
+        body = norm(text[m.end():e - 1])
+        loop = re.search(r"while \(!try_insert\((\w+), (\w+), (\w+)\)\)\s*\{", body)
+        if not loop:
+            raise CExprError("the retry loop `while (!try_insert(prev, new_node, curr))` not found")
+        le = match_brace(body, loop.end() - 1)
+        sites_uo = sorted(set(c for c in calls_in(body[le:]) if c not in NOTHROW_CALLS))
+        if re.search(r"\b(try|try_call|make_raii_guard)\b", body):
+            raise CExprError("internal_insert contains an exception handler")
+        hs = []
+        for sig, nodevar in ((r"std::pair<iterator, bool> internal_insert_value\(\s*ValueType&& (\w+)\s*\)", None),
+                             (r"std::pair<iterator, bool> emplace\(\s*Args&&\.\.\. (\w+)\s*\)", None)):
+            mf, fb = func(text, sig)
+            call = re.search(r"\binternal_insert\(", fb)
+            if not call:
+                raise CExprError("call of internal_insert not found in " + sig[:40])
+            for nv in set(re.findall(r"destroy_node\(\s*([\w.>-]+)\s*\)", fb)):
+                hs += [h for h in _handlers(fb, nv, call.start()) if h[1] is None or min(h[1]) > call.start()]
+        uo_unl = bool(hs)
+        info["uo_handlers"] = {"around internal_insert": [h[0] for h in hs], "user-code calls after the link": sites_uo}
+        obl.append(("shape of concurrent_unordered_base::internal_insert / internal_insert_value / emplace (exception handlers, throw sites)", True, ""))
+    except (CExprError, OSError, ValueError) as e:
+        obl.append(("shape of concurrent_unordered_base::internal_insert / internal_insert_value / emplace (exception handlers, throw sites)", False,
+                    "not understood (%s); the pessimistic policy is generated" % str(e)[:200]))
+    b = lambda v: "true" if v else "false"
+    defs = ["def slFreeOnThrowUnlinked : Bool := %s" % b(unl), "def slFreeOnThrowLinked : Bool := %s" % b(lnk),
+            "def uoFreeOnThrowUnlinked : Bool := %s" % b(uo_unl),
+            "def slThrowSitesAfterLink : List String := %s" % lean_list(sites_sl),
+            "def uoThrowSitesAfterLink : List String := %s" % lean_list(sites_uo)]
+    info["policy"] = {"slFreeOnThrowUnlinked": unl, "slFreeOnThrowLinked": lnk, "uoFreeOnThrowUnlinked": uo_unl}
+    return defs, obl, info
+
+
 def camel(name):
     p = name.split("_")
     return p[0] + "".join(w.capitalize() for w in p[1:])
@@ -422,4 +555,6 @@ def generate(repo):
     body += "def bucketCountWriters : List String := %s\n" % lean_list(w)
     for name in SKELETONS + ["internal_insert_retry"]:
         body += "def %sSkeleton : List String := %s\n" % (camel(name), lean_list(sk[name]))
-    return body, obl, {"writers": w, "skeletons": sk, "defs": defs}
+    tdefs, tobl, tinfo = throw_policy(repo)
+    body += "\n".join(tdefs) + "\n"
+    return body, obl + tobl, {"writers": w, "skeletons": sk, "defs": defs, "throw": tinfo}
